@@ -103,7 +103,7 @@ def run_shape(shape):
 
     def body_():
         RecDok.made = []
-        with bound(T, dok_array=RecDok, diags=sp.ddiags, int=sym_int, print=noprint, coo_array=sp.DCoo, csr_array=sp.DCsr, np=NPProxy(), float=sym_float):
+        with bound(T, dok_array=RecDok, diags=sp.ddiags, int=sym_int, print=noprint, coo_array=sp.DCoo, csr_array=sp.DCsr, csc_array=sp.DCsc, coo_matrix=sp.DCoo, csr_matrix=sp.DCsr, csc_matrix=sp.DCsc, np=NPProxy(), float=sym_float):
             traj = sarr([SR(x, nan=b) for x, b in zip(xs, nans)]) if L else np.zeros(0, dtype=object).view(type(sarr([0])))
             # another MSM of the same process (other trajectory, same number of cells, same lag and mode) is evaluated first
             decoy = np.array([float((3 * k + 1) % n) for k in range(L + 2)])
